@@ -152,7 +152,17 @@ pub fn run(ctx: &Ctx) -> i32 {
         let f = ALL[i % 4];
         let n_docs = *rng.pick(&[1usize, 1, 2, 3]);
         let o = GenOpts { max_depth: 3, max_width: 3, ..GenOpts::common() };
-        let (input, _) = valid_stream(f, n_docs, &mut rng, &mut feats, &mut cl, &o);
+        let (mut input, _) = valid_stream(f, n_docs, &mut rng, &mut feats, &mut cl, &o);
+        if f == Fmt::Yaml && i % 3 == 0 {
+            // the same YAML in UTF-16/32, made to contain characters outside the BMP
+            // (surrogate pairs: a fault can fall between or inside the two units)
+            if let Ok(t) = String::from_utf8(input.clone()) {
+                let t = format!("{t}---\n- \"\u{1F600}a\u{10FFFF}\"\n- \u{1F9D1}\n");
+                let enc = crate::c07::ENCS[(i / 12) % 4];
+                input = enc.encode(&t, (i / 48) % 2 == 0);
+                acc.count("inputs_utf16_32_with_astral_characters");
+            }
+        }
         if input.len() > 2048 && !(i % 50 == 0) {
             // large inputs: kept only as a stratified sample
             acc.count("large_input_skipped");
@@ -193,9 +203,9 @@ pub fn run(ctx: &Ctx) -> i32 {
             flush_fault(ALL[i % 4], acc);
         }
     });
-    let rule = format!("{} generated valid inputs (1-3 documents, each format in turn, <= 2 KiB plus a stratified sample above) x [explicit, detected] x rotating target, restricted to combinations whose fault-free run succeeds; for each: the reader fails and keeps failing after k bytes for EVERY k in 0..=len under rotating schedules [all, one, random]; the writer fails after accepting k bytes for EVERY k below the fault-free length in two styles (short accept then fail / reject the crossing write), from slice and reader input; 4 short-write patterns; flush faults; distinct non-trivial = distinct (input, from, to) combinations", n);
+    let rule = format!("{} generated valid inputs (1-3 documents, each format in turn, every third YAML input re-encoded as UTF-16/32 with characters outside the BMP, <= 2 KiB plus a stratified sample above) x [explicit, detected] x rotating target, restricted to combinations whose fault-free run succeeds; for each: the reader fails and keeps failing after k bytes for EVERY k in 0..=len under rotating schedules [all, one, random]; the writer fails after accepting k bytes for EVERY k below the fault-free length in two styles (short accept then fail / reject the crossing write), from slice and reader input; 4 short-write patterns; flush faults; distinct non-trivial = distinct (input, from, to) combinations", n);
     ev::finish(
-        Finish { ctx, level: "fault_enumeration", rule, assumptions: vec!["for YAML output one trailing '---' header after the last complete document is allowed (the writer emits it before pulling the next document)".into(), "writer-fault error text is judged in C11, not here".into()], extra: serde_json::Map::new(), exhaustive: false, min_distinct: 200, must_reach: vec![("reader_faults_delivered".into(), 10000), ("writer_fault_points".into(), 10000), ("short_write_runs".into(), 500), ("flush_fault_runs".into(), 4)] },
+        Finish { ctx, level: "fault_enumeration", rule, assumptions: vec!["for YAML output one trailing '---' header after the last complete document is allowed (the writer emits it before pulling the next document)".into(), "writer-fault error text is judged in C11, not here".into()], extra: serde_json::Map::new(), exhaustive: false, min_distinct: 200, must_reach: vec![("reader_faults_delivered".into(), 10000), ("writer_fault_points".into(), 10000), ("short_write_runs".into(), 500), ("flush_fault_runs".into(), 4), ("inputs_utf16_32_with_astral_characters".into(), 20)] },
         acc,
     )
 }
